@@ -566,8 +566,9 @@ def check_c16(tier, seed):
                 k = w[4]
                 src = c16.marker_probe(x, tr, k)
                 data.update({"row": {"type": x, "trait": w[3], "kind_of_T": k},
-                             "what": "rustc accepts %s<T>: %s for T %s, but %s" % (x, w[3], k, b.split("via=")[-1]) +
-                                     " is reachable and needs a bound T lacks",
+                             "what": "rustc accepts %s<T>: %s for a T that is %s, but the chain %s ends in an access "
+                                     "(&mut T / drop T needs Send, shared &T needs Sync) that such a T does not allow"
+                                     % (x, w[3], k, b.split("via=")[-1]),
                              "probe_source": src})
             elif w[1] == "variance":
                 x = w[2].split(".")[-1]
